@@ -4,7 +4,8 @@ from __future__ import annotations
 import random
 
 from harness import jobcheck, sched
-from harness.lib import Finding, PropertyCheck
+from harness.lib import Finding, PropertyCheck, TranslateError
+from translate import astutil
 from harness.progs import vm
 from redun.scheduler import CacheScope
 
@@ -91,11 +92,12 @@ class Check(PropertyCheck):
                 "C06_refuted_context_twin", "C06_context_twin_exact",
                 "C06_duplicates_agree", "C06_preset_is_final", "C06_outcome_final", "C06_duplicates_agree_nonvacuous",
                 "C06_duplicate_handed_value_partial", "C06_duplicate_handed_error_partial",
-                "C06_duplicate_done_resolve_partial", "C06_duplicate_cse_hit_partial"]
+                "C06_duplicate_done_resolve_partial", "C06_duplicate_cse_hit_partial",
+                "C06_one_job_per_expression", "C06_one_job_per_expression_nonvacuous"]
     variant = None
     assumptions = [
         "results of calls contain no Handle state that was rolled back meanwhile (such a CSE hit is deliberately re-derived)",
-        "NOT proved: duplicates receive the same result/error; each distinct expression of one parent job is evaluated once (_pending_expr). Both are checked on the implementation by the oracle and the trace correspondence",
+        "one job per distinct expression of a parent (C06_one_job_per_expression) is a theorem about the table of pending expressions (Model/PendingExpr.v), tied to the code by the entry-lifetime flag the translator extracts and by the per-(parent, expression) job count of the oracle; the open job machine itself takes job creation (ONew) as an external op",
     ]
     rule = ("random programs with many twin calls (same spec under different parents), failing leaves, catch, limits, "
             "cache_scope NONE/CSE and prov=False calls, on the real Scheduler with a controlled executor and seeded "
@@ -116,6 +118,16 @@ class Check(PropertyCheck):
             tie = ("(* submitting overwrites / finalizing pops the _pending_jobs entry regardless of its owner: "
                    "C06_refuted_as_shipped is the applicable theorem *)\n"
                    "Lemma C06_tie_shipped : pending_owner_safe gen_variant = false.\nProof. reflexivity. Qed.\n")
+        # lifetime of a _pending_expr entry (extracted by translate/tr_timing.py): C06_one_job_per_expression needs
+        # "until the parent job is finalized"
+        from translate import tr_timing
+        try:
+            _, tcfg, _ = tr_timing.translate(pins=None)
+        except astutil.TranslateError as e:
+            raise TranslateError(f"pending-expression table: {e}")
+        tie += ("Definition gen_pending_until_finalized_c06 : bool := %s.\n"
+                "Lemma C06_tie_pending_expr : gen_pending_until_finalized_c06 = true.\nProof. reflexivity. Qed.\n"
+                % ("true" if tcfg["pending_until_finalized"] else "false"))
         p.write_text(p.read_text() + tie)
         return [p]
 
